@@ -108,6 +108,10 @@ type ReplayDoc struct {
 	ReplayMode string          `json:"replay_mode"`
 	Minimised  string          `json:"minimised,omitempty"`
 	Case       json.RawMessage `json:"case"`
+	// replay_mode "process-range": the failure depends on what the worker process did before; the
+	// replay re-executes units Range[0] .. Range[0]+Range[1]-1 of tier Tier under Seed in a fresh process
+	Tier  string `json:"tier,omitempty"`
+	Range []int  `json:"range,omitempty"`
 }
 
 func defaultMatch(f *Failure, rr *ReplayResult) bool { return matched(f, rr) != nil }
@@ -316,6 +320,52 @@ func (e *Env) processFailures(s *Spec, agg *Agg, known *Known) (*Outcome, error)
 				continue
 			}
 		}
+		rangeMode := false
+		if !match(f, rr) && f.Class != "race" && f.Class != "native-disagreement" && !strings.HasPrefix(f.Site, "process:") {
+			// not a function of the case alone: does it depend on what the process did before?  Try
+			// the failing unit alone, then the units of the original worker process up to it.
+			ranges := [][2]int{{f.Run, 1}}
+			if f.ProcStart < f.Run {
+				ranges = append(ranges, [2]int{f.ProcStart, f.Run - f.ProcStart + 1})
+			}
+			for _, rg := range ranges {
+				r2 := e.RunRange(f.Variant, s.ID, rg[0], rg[1], 0, env, s.extra(e)...)
+				var hit *Failure
+				for _, g := range r2.Fails {
+					if g.Run == f.Run && matched(f, &ReplayResult{Fails: []*Failure{g}}) != nil {
+						hit = g
+						break
+					}
+				}
+				if hit != nil {
+					rangeMode = true
+					doc.ReplayMode, doc.Tier, doc.Range = "process-range", e.Tier, []int{rg[0], rg[1]}
+					doc.Detail += fmt.Sprintf("\n(the failing case does not fail in a fresh process on its own: it depends on what the same process executed before it (%d earlier unit(s)); the replay re-executes units %d..%d in one fresh process)", rg[1]-1, rg[0], rg[0]+rg[1]-1)
+					break
+				}
+			}
+		}
+		if rangeMode {
+			if what, ok := known.match(s.ID, f); ok {
+				out.Known++
+				out.Lines = append(out.Lines, fmt.Sprintf("KNOWN-FINDING: property=%s %s [%s at %s]", s.ID, what, f.Class, f.Site))
+				continue
+			}
+			h := sha256.Sum256([]byte(fmt.Sprintf("%s|%v|%d|%s", f.Key(), doc.Range, e.Seed, e.Tier)))
+			path := filepath.Join(e.Root, "replays", fmt.Sprintf("%s-%s.json", s.ID, hex.EncodeToString(h[:])[:10]))
+			mkdir(path)
+			if err := writeJSON(path, doc); err != nil {
+				return nil, troublef("%v", err)
+			}
+			out.Violations++
+			out.Lines = append(out.Lines, fmt.Sprintf("VIOLATION property=%s replay=%s", s.ID, path))
+			out.Lines = append(out.Lines, fmt.Sprintf("  class=%s site=%s", f.Class, f.Site))
+			out.Lines = append(out.Lines, fmt.Sprintf("  %s", strings.ReplaceAll(tail(doc.Detail, 1500), "\n", "\n  ")))
+			if out.Violations >= 3 {
+				break
+			}
+			continue
+		}
 		if !match(f, rr) {
 			var got []string
 			for _, g := range rr.Fails {
@@ -433,7 +483,21 @@ func Replay(e *Env, s *Spec, doc *ReplayDoc, file string) int {
 	if variant == "" {
 		variant = s.Main
 	}
-	rr := e.RunReplay(variant, s.ID, file, 0, env, s.extra(e)...)
+	var rr *ReplayResult
+	if doc.ReplayMode == "process-range" && len(doc.Range) == 2 {
+		// the worker is a deterministic function of (seed, tier, unit range)
+		e.Seed, e.Tier = doc.Seed, doc.Tier
+		rr = e.RunRange(variant, s.ID, doc.Range[0], doc.Range[1], 0, env, s.extra(e)...)
+		var last []*Failure
+		for _, g := range rr.Fails {
+			if g.Run == doc.Run {
+				last = append(last, g)
+			}
+		}
+		rr.Fails = last
+	} else {
+		rr = e.RunReplay(variant, s.ID, file, 0, env, s.extra(e)...)
+	}
 	if rr.Trouble != "" {
 		fmt.Printf("TROUBLE property=%s %s\n", s.ID, rr.Trouble)
 		return 2
